@@ -246,3 +246,65 @@ Proof.
 Qed.
 
 (* ENGINE-LEVEL THEOREMS (added by the lead) go below this line. *)
+
+(* Whole-engine model (Model/Engine.v: every program, uid oracle, event list incl. pause / resume / stop /
+   rerun / skip / duplicates): *)
+Require Mistral.Model.Engine Mistral.Proofs.EngineJoin Mistral.Proofs.EngineSafety Mistral.Proofs.EngineMore.
+
+(* in every reachable state there is at most one task execution carrying a given join's unique key *)
+Theorem C04_engine_join_executions_unique : forall sp u evs,
+  EngineJoin.uniq (Engine.run sp u evs).
+Proof. exact EngineJoin.join_executions_unique. Qed.
+Print Assumptions C04_engine_join_executions_unique.
+
+Theorem C04_engine_join_executions_unique_rows : forall sp u evs i j ri rj,
+  let s := Engine.run sp u evs in
+  nth_error (Engine.tasks s) i = Some ri -> nth_error (Engine.tasks s) j = Some rj ->
+  Engine.t_unique ri = true -> Engine.t_unique rj = true -> Engine.t_name ri = Engine.t_name rj -> i = j.
+Proof. exact EngineJoin.join_executions_unique_rows. Qed.
+Print Assumptions C04_engine_join_executions_unique_rows.
+
+(* the refresh job gives a waiting join an action only when its logical state is RUNNING ... *)
+Theorem C04_engine_refresh_starts_only_if_running : forall sp s tid,
+  length (Engine.acts (fst (Engine.do_refresh sp s tid))) <> length (Engine.acts s) ->
+  Engine.logical_state sp s tid = Gen.States.RUNNING /\
+  Gen.States.is_completed (Engine.wf_state s) = false /\
+  Gen.States.is_completed (Engine.t_state (Engine.get_task s tid)) = false /\
+  Engine.t_state (Engine.get_task s tid) <> Gen.States.RUNNING.
+Proof. exact EngineSafety.refresh_starts_only_if_logically_running. Qed.
+Print Assumptions C04_engine_refresh_starts_only_if_running.
+
+(* ... which means the required number of inbound tasks induce RUNNING ... *)
+Theorem C04_engine_running_needs_cardinality : forall sp s name,
+  Engine.join_logical sp s name = Gen.States.RUNNING -> Engine.inbound sp name <> [] ->
+  let inds := map (fun m => Engine.induced_state sp s m name) (Engine.inbound sp name) in
+  match Engine.ts_join (Engine.get_ts sp name) with
+  | Engine.JAll => Engine.count_ind Engine.IndRunning inds = length inds
+  | Engine.JOne => 1 <= Engine.count_ind Engine.IndRunning inds
+  | Engine.JNum k => k <= Engine.count_ind Engine.IndRunning inds
+  | Engine.JNone => True
+  end.
+Proof. exact EngineSafety.join_running_needs_cardinality. Qed.
+Print Assumptions C04_engine_running_needs_cardinality.
+
+(* ... and an inbound task induces RUNNING only if its execution completed and routed to the join *)
+Theorem C04_engine_induced_running_sound : forall sp s inb join,
+  Engine.induced_state sp s inb join = Engine.IndRunning ->
+  exists tid, Engine.find_last_by_name s inb = Some tid /\
+              Gen.States.is_completed (Engine.t_state (Engine.get_task s tid)) = true /\
+              Engine.routes_to (Engine.get_task s tid) join = true.
+Proof. exact EngineSafety.induced_running_sound. Qed.
+Print Assumptions C04_engine_induced_running_sound.
+
+(* a join fails (instead of waiting forever) exactly when the cardinality is out of reach *)
+Theorem C04_engine_join_error_means_unreachable : forall sp s name,
+  Engine.join_logical sp s name = Gen.States.ERROR ->
+  let inds := map (fun m => Engine.induced_state sp s m name) (Engine.inbound sp name) in
+  match Engine.ts_join (Engine.get_ts sp name) with
+  | Engine.JAll => 0 < Engine.count_ind Engine.IndError inds
+  | Engine.JOne => length inds - 1 < Engine.count_ind Engine.IndError inds
+  | Engine.JNum k => length inds - k < Engine.count_ind Engine.IndError inds
+  | Engine.JNone => False
+  end.
+Proof. exact EngineMore.join_error_means_unreachable. Qed.
+Print Assumptions C04_engine_join_error_means_unreachable.
